@@ -645,6 +645,49 @@ def _s_div_lt(eng, st, x, p, q):
   return True
 
 
+FDIV = z3.Function("fdiv", I, I, I)
+FMOD = z3.Function("fmod", I, I, I)
+
+
+@specfn("fdiv")
+def _s_fdiv(eng, st, x, p):
+  """x // p as an OPAQUE term (no arithmetic meaning until flat_def(x, p) is requested): for use under quantifiers, where
+  non-linear division terms make the solvers diverge."""
+  return FDIV(to_z3(eng.need_int(st, x)), to_z3(eng.need_int(st, p)))
+
+
+@specfn("fmod")
+def _s_fmod(eng, st, x, p):
+  return FMOD(to_z3(eng.need_int(st, x)), to_z3(eng.need_int(st, p)))
+
+
+@specfn("flat_def")
+def _s_flat_def(eng, st, x, p):
+  """Definition instance: fdiv(x, p) == x // p and fmod(x, p) == x % p (for p > 0).  Always returns True."""
+  x, p = to_z3(eng.need_int(st, x)), to_z3(eng.need_int(st, p))
+  eng.used_theories.add("fdiv/fmod: opaque names for // and % (positive divisor), definition instantiated on request")
+  st.assume(z3.Implies(p > 0, z3.And(FDIV(x, p) == x / p, FMOD(x, p) == x % p)))
+  return True
+
+
+CMOD0 = z3.Function("cmod0", I, I, z3.BoolSort())
+
+
+@specfn("cmod0")
+def _s_cmod0(eng, st, x, n):
+  """x % n == 0 as an OPAQUE predicate (for use under quantifiers); meaning on request through cmod0_def(x, n)."""
+  return CMOD0(to_z3(eng.need_int(st, x)), to_z3(eng.need_int(st, n)))
+
+
+@specfn("cmod0_def")
+def _s_cmod0_def(eng, st, x, n):
+  """Definition instance: cmod0(x, n) == (x % n == 0).  Always returns True."""
+  x, n = to_z3(eng.need_int(st, x)), to_z3(eng.need_int(st, n))
+  eng.used_theories.add("cmod0: opaque name for x % n == 0, definition instantiated on request")
+  st.assume(CMOD0(x, n) == (eng.mod(st, x, n, None) == 0))
+  return True
+
+
 @specfn("lemma")
 def _s_lemma(eng, st, name, *args):
   """Instance of a lemma declared with contracts.lemma (proved from the theory axioms on every run of every property
@@ -654,7 +697,11 @@ def _s_lemma(eng, st, name, *args):
   lem = C.LEMMAS.get(name)
   if lem is None or len(args) != len(lem.vars):
     raise_unsupported(f"lemma {name!r}: unknown or wrong number of arguments")
-  eng.used_theories.add(f"lemma:{name}")
+  if lem.axiom:
+    eng.abstracted.add(f"axiom schema of the specification theory '{name}': " + " and ".join(h.text for h in lem.hyps) +
+                       " ==> " + " and ".join(c.text for c in lem.concl))
+  else:
+    eng.used_theories.add(f"lemma:{name}")
   env = {n: eng.need_int(st, a) for n, a in zip(lem.vars, args)}
   fr = Frame(env, None, st.frame.module, fname="lemma:" + name)
   st.frames.append(fr)
@@ -1438,6 +1485,13 @@ def retype_list(eng, st, o, decl):
   if isinstance(o.rep, tuple) and o.rep[0] == "opt" and isinstance(et, tuple) and et[0] == "opt":
     o.elem_t = et
     o.rep = _const_rep(et, Opt(True, V.default_of(et[1])))
+  elif isinstance(o.rep, tuple) and o.rep[0] == "opt" and not (isinstance(et, tuple) and et[0] == "opt"):
+    # [None] * n declared with a non-optional element type (slots are written before they are read): the unwritten
+    # slots are modelled as unspecified values of the declared type
+    eng.abstracted.add(f"list declared {decl} created as [None] * n: unwritten slots modelled as unspecified values of the "
+                       "element type (a read before the first write is not modelled)")
+    o.elem_t = et
+    o.rep = V.fresh_rep(et, "slots")
 
 
 def slice_assign(eng, st, base, sl, v, node):
@@ -1831,10 +1885,14 @@ def comprehension(eng, st, node, kind):
     n0 = len(st.pc)
     st.spec_depth += 1
     st.nofresh += 1
+    outer_collect = st.__dict__.get("comp_collect")
+    st.__dict__["comp_collect"] = []
     try:
       eng.assign(st, gen.target, iter_item(eng, st, seq, j, node))
       elt = eng.ev(node.elt, st)
     finally:
+      oks = st.__dict__["comp_collect"]
+      st.__dict__["comp_collect"] = outer_collect
       st.nofresh -= 1
       st.spec_depth -= 1
       st.frames.pop()
@@ -1842,6 +1900,10 @@ def comprehension(eng, st, node, kind):
     del st.pc[n0:]
     for ax in axioms:
       st.assume(z3.ForAll([j], ax))
+    if oks and not st.spec:
+      # the comprehension completed: no element expression raised, for every index of the sequence
+      cond = z3.And(*[to_z3(o) if not isinstance(o, bool) else z3.BoolVal(o) for o in oks])
+      st.assume(z3.ForAll([j], z3.Implies(z3.And(j >= 0, j < to_z3(n)), cond)))
     if isinstance(elt, Opaque):
       return Opaque("sequence of abstracted values (" + elt.why + ")")
     t = eng.value_type(st, elt)
